@@ -90,8 +90,26 @@ let gen_ctx ~(tier : string) ~(seed : int) ~(emit : Sexp.t -> unit) : unit =
       for i = 0 to d - 1 do for j = i + 1 to d - 1 do emitp (TVar (nat_of_int i)) (TVar (nat_of_int j)) done done
   done
 
+
+(* "plausible simplifications": an operator applied to two copies of the same neutral term, or to a neutral term
+   and a unit / absorbing literal, against the literal or the operand a mistaken algebraic rule would produce
+   (n / n ~ 1, n - n ~ 0, n * 0 ~ 0, n + 0 ~ n, n == n ~ true, if c then e else e ~ e, - - e ~ e ...): every such
+   term is stuck, so the judgement must say "different" exactly when the normal forms differ *)
+let gen_identities ~(emit : Sexp.t -> unit) : unit =
+  let bs = [ Param TInt; Param TInt; Param TBool ] in
+  let v i = TVar (nat_of_int i) and l n = TLit (z_of_int n) in
+  let c = v 0 and x = v 1 and y = v 2 in
+  let neutrals = [ x; y; TBin (OSum, x, l 1); TBin (OProd, x, y); TNeg x; TIf (c, x, y); TBin (OQuot, x, l 2) ] in
+  let ops = [ OSum; ODiff; OProd; OQuot; OLt; OLe; OEq; OGt; OGe ] in
+  let targets e = [ e; l 0; l 1; l 2; l (-1); TTrue; TFalse; TNeg e; TBin (OProd, l 2, e); TBin (OSum, e, e) ] in
+  let emitp a b = emit (L [ A "unifypair"; ctx_sexp bs; sexp_of_term ~depth:3 a; sexp_of_term ~depth:3 b ]) in
+  List.iter (fun e ->
+      let lhs = List.concat_map (fun o -> [ TBin (o, e, e); TBin (o, e, l 0); TBin (o, l 0, e); TBin (o, e, l 1); TBin (o, l 1, e) ]) ops
+                @ [ TIf (c, e, e); TIf (TBin (OEq, e, e), l 1, l 0); TNeg (TNeg e); TNeg (TBin (ODiff, l 0, e)) ] in
+      List.iter (fun a -> List.iter (fun b -> emitp a b) (targets e)) lhs) neutrals
+
 let gen ~(tier : string) ~(seed : int) ~(emit : Sexp.t -> unit) : unit =
-  gen_closed ~tier ~seed ~emit; gen_ctx ~tier ~seed ~emit
+  gen_closed ~tier ~seed ~emit; gen_ctx ~tier ~seed ~emit; gen_identities ~emit
 
 let check (case : Sexp.t) (res : Sexp.t) : [ `Ok | `Mismatch of string | `Property of string ] * bool =
   let closed_case = (match case with
